@@ -73,6 +73,8 @@ def check(run):
         C06.wiring(R)        # the shared deflate context is configured as negotiated (reset flags / windows not crossed)
     single(R)
     ctx(R)
+    from . import C12 as _C12
+    _C12.compression_writers(R, 'C11.onectx')
     C03.rsv1gate(R, RID='C11.wireorder')
 
 
